@@ -21,6 +21,12 @@ BATTERY = [
      '<![CDATA[cd]]></i><?pi x?><i/></r>', 'xml',
      ['a|i', '[xlink|href]', '[*|href]', 'i:empty', ':lang(de)', 'i', ':root', 'i:-soup-contains(cd)']),
     ('<div><p>a</p>b<!--c--><p></p></div>', 'lxml', ['p:empty', 'div > p', ':root', 'p:first-child', 'div:-soup-contains(b)']),
+    # text held by bs4's special string containers (Script, Stylesheet, TemplateString, ...): classes looked up in bs4
+    ('<div id="d"><script>var token = 1;</script><style>p{color:red}</style><template><b>tt</b></template><ruby>k<rt>rt</rt></ruby></div><p></p>',
+     'html.parser', ['div:-soup-contains(token)', 'div:-soup-contains("color")', 'script:-soup-contains-own(token)', 'style:empty',
+                     'template:-soup-contains(tt)', 'div:-soup-contains(rt)', 'script:empty', ':-soup-contains-own(tt)']),
+    ('<div id="d"><script>var token = 1;</script><style>p{color:red}</style><textarea>ta</textarea></div>', 'lxml',
+     ['div:-soup-contains(token)', 'div:-soup-contains("color")', 'style:empty', 'textarea:-soup-contains(ta)', ':-soup-contains-own(ta)']),
     # a default ('') namespace in the caller's map, a None-valued entry, an empty map, no map at all
     ('<?xml version="1.0"?><feed xmlns="http://www.w3.org/2005/Atom" xmlns:media="urn:media"><entry><title id="t1">a</title>'
      '<media:title id="t2">b</media:title></entry><x xmlns=""><title id="t3">c</title></x></feed>', 'xml',
